@@ -7,10 +7,50 @@ def optHex : Option (List Byte) → String
   | some r => bytesHex r
   | none => "fault"
 
-def stepLine (_ : Unit) (line : String) : Unit × String :=
-  let r : Option String :=
-    match words line with
+/-- FNV-1a, 64 bit (digest of the long outputs; the harness computes the same) -/
+def fnv64 (bs : List Byte) : String :=
+  let h := bs.foldl (fun (h : UInt64) b => (h ^^^ UInt64.ofNat b.toNat) * 0x100000001b3) 0xcbf29ce484222325
+  hexOfNat 16 h.toNat
+
+/-- `data[i] = (a*i + b) mod 256` -/
+def patternBytes (n a b : Nat) : List Byte := (List.range n).map fun i => BitVec.ofNat 8 (a * i + b)
+
+def natsText (l : List Nat) : String := " ".intercalate (l.map toString)
+
+def evalWords (ws : List String) : Option String :=
+    match ws with
     | ["reset"] => some "ok"
+    | ["alphas"] => some (bytesHex (b64Encode sextetRamp) ++ " " ++ bytesHex (b64urlEncode sextetRamp))
+    | ["widths"] => some widthsText
+    | ["lanes"] => some (natsText (laneOffsets .little))
+    | ["nib", arg] => do
+        let b ← bvOf 8 arg
+        pure (byteHex (HIHALF b) ++ " " ++ byteHex (LOHALF b))
+    | ["hencm", size, cap, arg] => do
+        let m ← parseBytes? arg; let sz ← parseInt? size; let c ← parseInt? cap
+        pure (optHex (hexEncodeM m sz c.toNat))
+    | ["hdeci", size, arg] => do
+        let m ← parseBytes? arg; let sz ← parseInt? size
+        pure (optHex (hexDecodeInPlaceM m sz))
+    | ["reuse", a, b] => do
+        let _ ← parseBytes? a; let m ← parseBytes? b
+        let c := hexEncode m; let cs := hexEncodeStr m; let e := b64Encode m; let u := b64urlEncode m
+        pure (bytesHex c ++ " " ++ bytesHex cs ++ " " ++ bytesHex e ++ " " ++ bytesHex u ++ " " ++
+          optHex ((hexDecodeM c c.length (c.length / 2)).bind fun d => (hexDecodeStrM cs).map fun d2 => d ++ d2) ++ " " ++
+          optHex (b64DecodeM e) ++ " " ++ optHex (b64urlDecodeM u))
+    | ["hlong", n, a, b] => do
+        let n ← n.toNat?; let a ← a.toNat?; let b ← b.toNat?
+        let m := patternBytes n a b
+        let e := hexEncodeFast m
+        let d := hexDecodeFast e
+        -- second digests: the std::string twins (list models)
+        pure (toString e.length ++ " " ++ fnv64 e ++ " " ++ fnv64 (hexEncodeStr m) ++ " " ++ toString d.length ++ " " ++ fnv64 d ++ " " ++ fnv64 (hexDecodeStr e))
+    | ["blong", kind, n, a, b] => do
+        let n ← n.toNat?; let a ← a.toNat?; let b ← b.toNat?
+        let m := patternBytes n a b
+        let e := if kind == "url" then (b64EncodeFast m).map urlSubst else b64EncodeFast m
+        let d := if kind == "url" then b64DecodeFast (e.map urlUnsubst) else b64DecodeFast e
+        pure (toString e.length ++ " " ++ fnv64 e ++ " " ++ toString d.length ++ " " ++ fnv64 d)
     | ["alpha"] => some (bytesHex charset)
     | ["maxsz"] => some (hexOfNat 16 strMaxSize)
     | ["hbyte", hi, lo] => do
@@ -62,6 +102,16 @@ def stepLine (_ : Unit) (line : String) : Unit × String :=
         | "budec" => do let m ← parseBytes? arg; pure (optHex (b64urlDecodeM m))
         | _ => none
     | _ => none
+
+/-- `premain <k> <op …>`: the battery line `k` executed by the harness before
+`main()`; a pure function gives the same answer whenever it is called, so the
+model computes the call itself -/
+def stepLine (_ : Unit) (line : String) : Unit × String :=
+  let r : Option String :=
+    match words line with
+    | "premain" :: _ :: "premain" :: _ => none
+    | "premain" :: _ :: rest => evalWords rest
+    | ws => evalWords ws
   ((), r.getD "bad-op")
 
 def main : IO Unit := run () stepLine
